@@ -382,7 +382,7 @@ int hwloc_bitmap_sscanf(struct hwloc_bitmap_s *set, const char * __hwloc_restric
 
   /* count how many substrings there are */
   count++;
-  while ((current = strchr(current+1, ',')) != NULL)
+  for (current = strchr(string, ','); current != NULL; current = strchr(current+1, ','))
     count++;
 
   current = string;
@@ -413,12 +413,11 @@ int hwloc_bitmap_sscanf(struct hwloc_bitmap_s *set, const char * __hwloc_restric
   }
 #endif
 
-  while (*current != '\0') {
+  while (count > 0) {
     unsigned long val;
     char *next;
     val = strtoul(current, &next, 16);
 
-    assert(count > 0);
     count--;
 
     accum |= (val << ((count * HWLOC_BITMAP_SUBSTRING_SIZE) % HWLOC_BITS_PER_LONG));
